@@ -108,6 +108,11 @@ pub mod operator {
     //@extract crates/jrsonnet-evaluator/src/evaluate/operator.rs :: fn evaluate_mod_op
     //@extract crates/jrsonnet-evaluator/src/evaluate/operator.rs :: fn evaluate_compare_op
     //@extract crates/jrsonnet-evaluator/src/evaluate/operator.rs :: fn evaluate_binary_op_normal
+
+    /// `&&` / `||` short-circuiting (`evaluate_binary_op_special`): operands are expressions; the
+    /// stand-in expression is an already computed value plus an evaluation counter
+    pub use crate::standins::{evaluate, Context, Expr};
+    //@extract crates/jrsonnet-evaluator/src/evaluate/operator.rs :: fn evaluate_binary_op_special
 }
 
 #[cfg(kani)]
